@@ -29,7 +29,10 @@ type op struct {
 	V    int      `json:"v,omitempty"`
 	Vs   []int    `json:"vs,omitempty"`
 	Keys []string `json:"keys,omitempty"`
+	S    int      `json:"s,omitempty"` // collection acted upon (histories hold nSlots collections; copy: S = destination, J = source)
 }
+
+const nSlots = 3
 
 type history struct {
 	Kind     string   `json:"kind"` // list | dict
@@ -104,6 +107,13 @@ func runList(hs *history) (fails []h.Failure) {
 		items = append(items, zn.ToElem(poolValue(i)))
 	}
 	arr := value.NewArray(items)
+	// further collections start empty; "copy" stores an independent copy of one in another
+	arrs := []*value.Array{arr}
+	models := [][]zn.Value{model}
+	for i := 1; i < nSlots; i++ {
+		arrs = append(arrs, value.NewArray([]r.Element{}))
+		models = append(models, nil)
+	}
 	var hist []string
 	fail := func(sig, why string) {
 		fails = append(fails, h.Failure{Sig: "list/" + sig, Msg: fmt.Sprintf("initial list %s, after %s\n%s\nmodel: %s\nlist:  %s", zn.Show(&zn.ListV{Items: initVals(hs.Init)}), strings.Join(hist, "; "), why, zn.Show(&zn.ListV{Items: model}), arr.String())})
@@ -111,8 +121,19 @@ func runList(hs *history) (fails []h.Failure) {
 	kind, msg, site := h.Guard(func() {
 		for _, o := range hs.Ops {
 			hist = append(hist, describe(o))
+			if o.S < 0 || o.S >= nSlots {
+				o.S = 0
+			}
+			arr, model = arrs[o.S], models[o.S]
 			n := len(model)
 			switch o.Op {
+			case "copy":
+				if o.J < 0 || o.J >= nSlots {
+					o.J = 0
+				}
+				arrs[o.S] = value.DuplicateValue(arrs[o.J]).(*value.Array)
+				models[o.S] = append([]zn.Value{}, models[o.J]...)
+				arr, model = arrs[o.S], models[o.S]
 			case "get":
 				got, err := value.NewArrayIV(arr, o.I).ReduceRHS()
 				if o.I < 1 || o.I > n {
@@ -300,28 +321,33 @@ func runList(hs *history) (fails []h.Failure) {
 					}
 				}
 			}
-			// invariants after every step: display form, length, first/last, elements
-			if ok, why := zn.Same(arr, &zn.ListV{Items: model}); !ok {
-				fail("state-diverged", why)
-				return
-			}
-			if arr.String() != zn.Show(&zn.ListV{Items: model}) {
-				fail("display", "displayed form differs")
-				return
-			}
-			ln, _ := arr.GetProperty("长度")
-			if ok, why := zn.Same(ln, float64(len(model))); !ok {
-				fail("length", why)
-				return
-			}
-			if len(model) > 0 {
-				f, _ := arr.GetProperty("首项")
-				l, _ := arr.GetProperty("末项")
-				ok1, _ := zn.Same(f, model[0])
-				ok2, _ := zn.Same(l, model[len(model)-1])
-				if !ok1 || !ok2 {
-					fail("first-last", "首项/末项 disagree with the sequence")
+			models[o.S] = model
+			// invariants after every step, for every collection of the history: display
+			// form, length, first/last, elements
+			for si := range arrs {
+				arr, model = arrs[si], models[si]
+				if ok, why := zn.Same(arr, &zn.ListV{Items: model}); !ok {
+					fail("state-diverged", fmt.Sprintf("collection %d: %s", si, why))
 					return
+				}
+				if arr.String() != zn.Show(&zn.ListV{Items: model}) {
+					fail("display", fmt.Sprintf("collection %d: displayed form differs", si))
+					return
+				}
+				ln, _ := arr.GetProperty("长度")
+				if ok, why := zn.Same(ln, float64(len(model))); !ok {
+					fail("length", why)
+					return
+				}
+				if len(model) > 0 {
+					f, _ := arr.GetProperty("首项")
+					l, _ := arr.GetProperty("末项")
+					ok1, _ := zn.Same(f, model[0])
+					ok2, _ := zn.Same(l, model[len(model)-1])
+					if !ok1 || !ok2 {
+						fail("first-last", "首项/末项 disagree with the sequence")
+						return
+					}
 				}
 			}
 		}
@@ -341,6 +367,17 @@ func initVals(idx []int) []zn.Value {
 }
 
 func describe(o op) string {
+	d := describe1(o)
+	if o.Op == "copy" || o.Op == "dcopy" {
+		return fmt.Sprintf("collection %d = copy of collection %d", o.S, o.J)
+	}
+	if o.S != 0 {
+		return fmt.Sprintf("[collection %d] %s", o.S, d)
+	}
+	return d
+}
+
+func describe1(o op) string {
 	switch o.Op {
 	case "get":
 		return fmt.Sprintf("read #%d", o.I)
@@ -369,9 +406,20 @@ func genListHistory(t *rapid.T) (*history, []string) {
 	nops := rapid.IntRange(1, 25).Draw(t, "nops")
 	size := n0
 	mut := map[string]bool{}
+	multi := rapid.Bool().Draw(t, "multi") // several collections with copies between them
 	for i := 0; i < nops; i++ {
-		k := rapid.SampledFrom([]string{"get", "get", "set", "append", "append", "prepend", "shift", "pop", "swap", "merge", "first-set", "last-set", "reverse", "contains", "find", "find"}).Draw(t, "op")
+		k := rapid.SampledFrom([]string{"get", "get", "set", "append", "append", "prepend", "shift", "pop", "swap", "merge", "first-set", "last-set", "reverse", "contains", "find", "find", "copy"}).Draw(t, "op")
 		o := op{Op: k}
+		if multi {
+			o.S = rapid.IntRange(0, nSlots-1).Draw(t, "slot")
+		}
+		if k == "copy" {
+			if !multi {
+				continue
+			}
+			o.J = rapid.IntRange(0, nSlots-1).Draw(t, "from")
+			mut["copy"] = true
+		}
 		switch k {
 		case "get", "set":
 			o.I = rapid.IntRange(-1, size+2).Draw(t, "i")
@@ -483,6 +531,12 @@ func runDict(hs *history) (fails []h.Failure) {
 		pairs = append(pairs, value.KVPair{Key: k, Value: zn.ToElem(poolValue(hs.Init[i]))})
 	}
 	hm := value.NewHashMap(pairs)
+	hms := []*value.HashMap{hm}
+	models := []*omap{model}
+	for i := 1; i < nSlots; i++ {
+		hms = append(hms, value.NewHashMap(nil))
+		models = append(models, &omap{m: map[string]zn.Value{}})
+	}
 	var hist []string
 	fail := func(sig, why string) {
 		fails = append(fails, h.Failure{Sig: "dict/" + sig, Msg: fmt.Sprintf("literal keys %v, after %s\n%s\nmodel:      %s\ndictionary: %s", hs.InitKeys, strings.Join(hist, "; "), why, zn.Show(model.dict()), hm.String())})
@@ -490,7 +544,21 @@ func runDict(hs *history) (fails []h.Failure) {
 	kind, msg, site := h.Guard(func() {
 		for _, o := range hs.Ops {
 			hist = append(hist, describe(o))
+			if o.S < 0 || o.S >= nSlots {
+				o.S = 0
+			}
+			hm, model = hms[o.S], models[o.S]
 			switch o.Op {
+			case "dcopy":
+				if o.J < 0 || o.J >= nSlots {
+					o.J = 0
+				}
+				hms[o.S] = value.DuplicateValue(hms[o.J]).(*value.HashMap)
+				cp := &omap{m: map[string]zn.Value{}}
+				for _, k := range models[o.J].keys {
+					cp.set(k, models[o.J].m[k])
+				}
+				models[o.S] = cp
 			case "dget":
 				got, err := value.NewHashMapIV(hm, o.K).ReduceRHS()
 				want, ok := model.m[o.K]
@@ -537,50 +605,54 @@ func runDict(hs *history) (fails []h.Failure) {
 				}
 				model.del(o.K)
 			}
-			want := model.dict()
-			if ok, why := zn.Same(hm, want); !ok {
-				fail("state-diverged", why)
-				return
-			}
-			if hm.String() != zn.Show(want) {
-				fail("display-order", "displayed form differs")
-				return
-			}
-			ks, _ := hm.GetProperty("所有索引")
-			vs, _ := hm.GetProperty("所有值")
-			wk := &zn.ListV{}
-			wv := &zn.ListV{}
-			for _, k := range model.keys {
-				wk.Items = append(wk.Items, k)
-				wv.Items = append(wv.Items, model.m[k])
-			}
-			if ok, why := zn.Same(ks, wk); !ok {
-				fail("keys-order", "所有索引: "+why)
-				return
-			}
-			if ok, why := zn.Same(vs, wv); !ok {
-				fail("values-order", "所有值: "+why)
-				return
-			}
-			ln, _ := hm.GetProperty("长度")
-			if ok, why := zn.Same(ln, float64(len(model.keys))); !ok {
-				fail("length", why)
-				return
-			}
-			// generated JSON follows the same order
-			js, err := common.HashMapToJSONString(hm)
-			if err != nil {
-				fail("json-rejected", err.Error())
-				return
-			}
-			order, err := jsonKeyOrder(js.GetValue())
-			if err != nil {
-				fail("json-invalid", err.Error()+": "+js.GetValue())
-				return
-			}
-			if strings.Join(order, "\x00") != strings.Join(model.keys, "\x00") {
-				fail("json-key-order", fmt.Sprintf("generated JSON %s lists keys %v, insertion order is %v", js.GetValue(), order, model.keys))
-				return
+			// every collection of the history must agree with its model after every step
+			for si := range hms {
+				hm, model = hms[si], models[si]
+				want := model.dict()
+				if ok, why := zn.Same(hm, want); !ok {
+					fail("state-diverged", why)
+					return
+				}
+				if hm.String() != zn.Show(want) {
+					fail("display-order", "displayed form differs")
+					return
+				}
+				ks, _ := hm.GetProperty("所有索引")
+				vs, _ := hm.GetProperty("所有值")
+				wk := &zn.ListV{}
+				wv := &zn.ListV{}
+				for _, k := range model.keys {
+					wk.Items = append(wk.Items, k)
+					wv.Items = append(wv.Items, model.m[k])
+				}
+				if ok, why := zn.Same(ks, wk); !ok {
+					fail("keys-order", "所有索引: "+why)
+					return
+				}
+				if ok, why := zn.Same(vs, wv); !ok {
+					fail("values-order", "所有值: "+why)
+					return
+				}
+				ln, _ := hm.GetProperty("长度")
+				if ok, why := zn.Same(ln, float64(len(model.keys))); !ok {
+					fail("length", why)
+					return
+				}
+				// generated JSON follows the same order
+				js, err := common.HashMapToJSONString(hm)
+				if err != nil {
+					fail("json-rejected", err.Error())
+					return
+				}
+				order, err := jsonKeyOrder(js.GetValue())
+				if err != nil {
+					fail("json-invalid", err.Error()+": "+js.GetValue())
+					return
+				}
+				if strings.Join(order, "\x00") != strings.Join(model.keys, "\x00") {
+					fail("json-key-order", fmt.Sprintf("generated JSON %s lists keys %v, insertion order is %v", js.GetValue(), order, model.keys))
+					return
+				}
 			}
 		}
 	})
@@ -603,13 +675,32 @@ func TestDictHistories(t *testing.T) {
 		nops := rapid.IntRange(1, 25).Draw(t, "nops")
 		removed := map[string]bool{}
 		reinserted, overwrote := false, false
+		multi := rapid.Bool().Draw(t, "multi")
+		copies := 0
 		present := map[string]bool{}
 		for _, k := range hs.InitKeys {
 			present[k] = true
 		}
 		for i := 0; i < nops; i++ {
-			k := rapid.SampledFrom([]string{"dget", "dset", "dset", "dwrite", "dread", "ddel", "ddel"}).Draw(t, "op")
+			k := rapid.SampledFrom([]string{"dget", "dset", "dset", "dwrite", "dread", "ddel", "ddel", "dcopy"}).Draw(t, "op")
 			o := op{Op: k, K: rapid.SampledFrom(dictKeys).Draw(t, "key"), V: rapid.IntRange(0, 8).Draw(t, "v")}
+			if multi {
+				o.S = rapid.IntRange(0, nSlots-1).Draw(t, "slot")
+			}
+			if k == "dcopy" {
+				if !multi {
+					continue
+				}
+				o.J = rapid.IntRange(0, nSlots-1).Draw(t, "from")
+				copies++
+				hs.Ops = append(hs.Ops, o)
+				continue
+			}
+			if o.S != 0 {
+				// the label bookkeeping below follows collection 0 only
+				hs.Ops = append(hs.Ops, o)
+				continue
+			}
 			switch k {
 			case "dset", "dwrite":
 				if removed[o.K] && !present[o.K] {
@@ -634,8 +725,11 @@ func TestDictHistories(t *testing.T) {
 		if overwrote {
 			labels = append(labels, "dict-overwrite")
 		}
+		if copies > 0 {
+			labels = append(labels, "dict-copies")
+		}
 		key, _ := json.Marshal(hs)
-		h.R.Case(t, "dict", string(key), hs, labels, reinserted || (overwrote && len(removed) > 0), runDict(hs))
+		h.R.Case(t, "dict", string(key), hs, labels, reinserted || copies > 0 || (overwrote && len(removed) > 0), runDict(hs))
 	})
 }
 
